@@ -42,6 +42,9 @@ CHECKS = {
  "C05": ("exploration", "seeded structure-aware hostile-input generation into the raw core, the raw FEC decoder and live sessions (simnet + real UDP) under the race detector/checkptr; process-survival, structural-bound and heap-growth monitors; content oracle on the concurrent legitimate transfer",
    "~1.5*10^6 injections per quick run; a crash is attributed to the last logged case; bounds are asserted after every injection.",
    "generators are seeded and structure-aware, not coverage-guided", "DESIGN.md §3 C05"),
+ "C14": ("exploration", "Go race detector over a real-time method-hammer workload (every supported public method of UDPSession and Listener, concurrent with traffic, Close/re-dial churn and listener failure) with yield/sleep injection at hook points; reports deduplicated by entry-point pair",
+   "Held on the interleavings produced; evidence lists invocations per method and how many method pairs overlapped in time.",
+   "race detector sees only interleavings that occurred", "DESIGN.md §3 C14"),
  "C13": ("exploration", "virtual-time trace monitor: return time and error class of every blocked caller recorded at the API boundary and compared with a reference model of deadline/data/close/error semantics at bubble quiescence after each scripted stimulus",
    "Thousands of scripted interleavings of blocked Read/Write/Accept callers with deadline changes, arrivals, Close and socket errors, judged to the exact virtual millisecond; held on the scripts executed.",
    "synctest virtual time; Go scheduler order inside one instant", "DESIGN.md §3 C13"),
